@@ -159,11 +159,11 @@ def concatenate(arrays, axis=0):
 
     check_consistent_fill_value(arrays)
 
+    arrays = [x if isinstance(x, COO) else COO(x) for x in arrays]
     if axis is None:
         axis = 0
         arrays = [x.flatten() for x in arrays]
 
-    arrays = [x if isinstance(x, COO) else COO(x) for x in arrays]
     axis = normalize_axis(axis, arrays[0].ndim)
     if any(x.ndim != arrays[0].ndim for x in arrays):
         raise ValueError("all the input arrays must have the same number of dimensions")
